@@ -1,6 +1,6 @@
 (* C18 -- synthetic generators emit data that their returned ground truth explains (partial). *)
 From Coq Require Import List QArith.
-From CE Require Import Model.Generators Proofs.GeneratorsProofs.
+From CE Require Import Model.Generators Proofs.GeneratorsProofs Proofs.GeneratorsDag.
 Import ListNotations.
 Open Scope Q_scope.
 
@@ -75,3 +75,54 @@ Print Assumptions C18_poisson_rate_floor.
 Theorem C18_executed_model_is_the_specified_model : forall A eps noise, meq (lin_series_red A eps noise) (lin_series A eps noise).
 Proof. exact lin_series_red_eq. Qed.
 Print Assumptions C18_executed_model_is_the_specified_model.
+
+(* ---- "0 if acyclic" on the list model (eigenvalue / spectral-radius form for all sizes: Properties/C18Mx.v) ---- *)
+(* the executable topological-order witness test evaluated on the returned matrices means: every non-zero A[i][j]
+   (edge j -> i) has j strictly before i in the supplied order *)
+Theorem C18_dag_witness_test_is_the_order_statement : forall order n A, dag_witness_ok order n A = true <->
+  forall i j, (i < n)%nat -> (j < n)%nat -> ~ get A i j == 0 -> (rank_of order j < rank_of order i)%nat.
+Proof. exact dag_witness_ok_spec. Qed.
+Print Assumptions C18_dag_witness_test_is_the_order_statement.
+
+(* ACYCLIC => NILPOTENT for every n and ANY rank function r: if every non-zero A[i][j] has r j < r i then A^m = 0 (exactly,
+   entrywise) as soon as m exceeds every rank *)
+Theorem C18_acyclic_support_is_nilpotent : forall n A (r : nat -> nat),
+  (forall i j, (i < n)%nat -> (j < n)%nat -> ~ get A i j == 0 -> (r j < r i)%nat) ->
+  forall m, (forall i, (i < n)%nat -> (r i < m)%nat) ->
+  forall i j, (i < n)%nat -> (j < n)%nat -> get (mpow n A m) i j == 0.
+Proof. exact dag_nilpotent_list. Qed.
+Print Assumptions C18_acyclic_support_is_nilpotent.
+
+(* whenever the witness tests pass on a matrix, A^n = 0 exactly: the nilpotency test that the correspondence ALSO evaluates
+   on the returned matrix is then guaranteed *)
+Theorem C18_witness_implies_exact_nilpotency : forall n order A,
+  order_ok n order = true -> dag_witness_ok order n A = true -> nilpotent_ok n A = true.
+Proof. exact witness_implies_nilpotent. Qed.
+Print Assumptions C18_witness_implies_exact_nilpotency.
+
+(* the reduced-fraction matrix power that is executed has the entries of the specified power *)
+Theorem C18_executed_nilpotency_test_is_the_specified_one : forall n A, nilpotent_red_ok n A = nilpotent_ok n A.
+Proof. exact nilpotent_red_ok_spec. Qed.
+Print Assumptions C18_executed_nilpotency_test_is_the_specified_one.
+
+(* a topological order of the GRAPH USED is a witness for every matrix supported on the transposed graph ... *)
+Theorem C18_graph_order_is_witness_for_supported_matrices : forall n order adj A,
+  dag_witness_ok order n (transpose n adj) = true -> support_ok n adj A = true -> dag_witness_ok order n A = true.
+Proof. exact graph_order_is_witness. Qed.
+Print Assumptions C18_graph_order_is_witness_for_supported_matrices.
+
+(* ... so the matrix the model builds on an acyclic graph is exactly nilpotent whatever the weights, rho and measured radius *)
+Theorem C18_acyclic_graph_gives_nilpotent_matrix : forall n order adj R rho m,
+  order_ok n order = true -> dag_witness_ok order n (transpose n adj) = true ->
+  nilpotent_ok n (build_A n adj R rho m) = true.
+Proof. exact acyclic_build_nilpotent. Qed.
+Print Assumptions C18_acyclic_graph_gives_nilpotent_matrix.
+
+(* the normalisation factor s <> 0 does not change which entries are non-zero, hence neither the support test nor the witness test *)
+Theorem C18_normalisation_keeps_support : forall s M i j, ~ s == 0 -> (get (mscale s M) i j == 0 <-> get M i j == 0).
+Proof. exact mscale_support. Qed.
+Print Assumptions C18_normalisation_keeps_support.
+
+Theorem C18_normalisation_keeps_support_test : forall n adj s M, ~ s == 0 -> support_ok n adj (mscale s M) = support_ok n adj M.
+Proof. exact support_ok_mscale_iff. Qed.
+Print Assumptions C18_normalisation_keeps_support_test.
